@@ -138,6 +138,15 @@ def gen_plan(seed, tier="quick", variant=None):
     for _ in range(rng.choice([0, 0, 1, 2])):
         ops.append({"on": rng.randint(0, 4), "delay": round(rng.choice([0.0, 0.0002, 0.002, 0.02]), 6), "op": "cancel",
                     "id": rng.randint(0, nsend - 1)})
+    if discover and not clean and random.Random(seed * 139 + 5).random() < 0.3:
+        # overlapping version discoveries with different fates: ApiVersions goes unanswered for a while, then is answered
+        r7 = random.Random(seed * 139 + 6)
+        t_first = min(o["t"] for o in ops if o["op"] == "send")
+        tmo = timeout_ms / 1000.0
+        for _ in range(r7.choice([1, 2])):
+            ops.append({"t": round(t_first + tmo * r7.choice([0.3, 0.6, 1.2, 2.5]), 6), "op": "versions"})
+        apiv.clear()
+        cfg["warm"] = True
     if len([o for o in ops if o["op"] == "send"]) > 1 and random.Random(seed * 137 + 3).random() < 0.25:
         # a result callback that cancels other sends (one issued before it, one after it)
         r4 = random.Random(seed * 137 + 4)
@@ -213,6 +222,12 @@ def gen_plan(seed, tier="quick", variant=None):
                 t0 = round(rng.random() * horizon, 6)
                 faults.append({"t": t0, "act": "freeze_meta", "node": n})
                 faults.append({"t": round(t0 + rng.choice([0.1, 1.0]), 6), "act": "thaw_meta", "node": n})
+    if any(o["op"] == "versions" for o in ops):
+        r8 = random.Random(seed * 139 + 7)
+        k = r8.choice([nb + 1, 2 * (nb + 1), 3 * (nb + 1) - 1, 3 * (nb + 1), 3 * (nb + 1) + 1])
+        faults.append({"api": 18, "node": None, "nth": 0, "act": "silent", "count": k})
+        if r8.random() < 0.5:
+            faults.append({"api": 18, "node": None, "nth": k, "act": "delay", "delay": round(timeout_ms / 1000.0 * r8.choice([0.5, 0.9]), 6), "count": 2})
     if variant == "outage":
         # one of several brokers is unreachable - its partitions leaderless or still pointing at it - across several
         # attempts of one batch while the others acknowledge: partial failure, then total failure of the retry, then success
@@ -444,6 +459,16 @@ def _run(w, plan):
             sim.mark("op", "cancel")
             s["cancel_seq"] = len(sim.log) - 1
             s["w"].d.cancel()
+        elif kind == "versions":
+            # somebody else on the same client (a consumer, say) needs the API versions too: a second, overlapping discovery
+            if state["stopped"]:
+                return
+            sim.record("op", "versions")
+            try:
+                dv = client.get_api_version(1)
+                dv.addErrback(lambda f: None)
+            except Exception:
+                pass
         elif kind == "stop":
             if state["stopped"]:
                 return
